@@ -7,6 +7,7 @@ import (
 	"bytes"
 	"crypto/sha256"
 	"fmt"
+	"strings"
 
 	"github.com/theQRL/go-qrllib/common"
 	"github.com/theQRL/go-qrllib/dilithium"
@@ -113,6 +114,19 @@ func main() {
 					enc := d.GetBytes()
 					if enc[0] != b0 || enc[1] != b1 || enc[2] != 0 {
 						c.Fail(i, "desc-reencode", map[string]any{"bytes": drv.Hex([]byte{b0, b1, b2}), "observed": drv.Hex(enc[:])})
+					}
+					if leg == 0 && i%7 == 0 {
+						// the descriptor must not keep a live view of the caller's buffer
+						buf := []byte{b0, b1, b2}
+						d1 := xmss.NewQRLDescriptorFromBytes(buf)
+						var epk [67]byte
+						epk[0], epk[1] = b0, b1
+						d2 := xmss.NewQRLDescriptorFromExtendedPK(&epk)
+						buf[0], buf[1], epk[0], epk[1] = ^b0, ^b1, ^b0, ^b1
+						e1, e2 := d1.GetBytes(), d2.GetBytes()
+						if e1[0] != b0 || e1[1] != b1 || e2[0] != b0 || e2[1] != b1 || int(d1.GetHeight()) != int(b1&15)*2 {
+							c.Fail(i, "descriptor-aliases-callers-buffer", map[string]any{"bytes": drv.Hex([]byte{b0, b1}), "after_overwrite_from_slice": drv.Hex(e1[:]), "after_overwrite_from_pk": drv.Hex(e2[:])})
+						}
 					}
 				}
 				if b0&15 <= 2 && b0>>4 == 0 && b1>>4 == 0 && b1&15 >= 2 {
@@ -402,6 +416,36 @@ func main() {
 					}
 				}
 				c.Outcome("ok")
+			}
+		}})
+	ck.Domains = append(ck.Domains, &drv.Domain{Name: "object-address-stability", Size: 3 * 4, Chunk: 1, Desc: "key objects (h=4, 3 hash functions, address-format nibble 0..3): GetAddress / GetLegacyAddress called three times give three times the same outcome (the formula for format 0, the same refusal otherwise)",
+		Run: func(c *drv.Ctx, lo, hi int64) {
+			for i := lo; i < hi; i++ {
+				c.At(i)
+				hf, af := int(i%3), int(i/3)
+				var seed [48]byte
+				copy(seed[:], fill(48, 5, c.Seed))
+				k := xmss.NewXMSSFromSeed(seed, 4, xmss.HashFunction(hf), common.AddrFormatType(af))
+				pk := k.GetPK()
+				var outs []string
+				for r := 0; r < 3; r++ {
+					var a [20]byte
+					var la [39]byte
+					o := drv.Call(func() { a = k.GetAddress(); la = k.GetLegacyAddress() })
+					outs = append(outs, o+" "+drv.Hex(a[:])+" "+drv.Hex(la[:8]))
+				}
+				c.Eval(3)
+				c.Nontrivial(1)
+				c.Outcome(outs[0][:8])
+				if outs[1] != outs[0] || outs[2] != outs[0] {
+					c.Fail(i, "object-address-changes-between-calls", map[string]any{"hash": hf, "addrfmt": af, "outcomes": outs})
+				}
+				if af == 0 {
+					want := append([]byte{pk[0], pk[1], 0}, shake256(32, pk[:])[15:]...)
+					if !strings.Contains(outs[0], drv.Hex(want)) {
+						c.Fail(i, "object-address-formula", map[string]any{"hash": hf, "expected": drv.Hex(want), "observed": outs[0]})
+					}
+				}
 			}
 		}})
 	drv.Main(ck)
